@@ -724,8 +724,54 @@ static void reentrant_callback_body()
     mc::outcome(mc::fmt("%c: %zu nested calls", lowc(d.conv), calls));
 }
 
+// ------------------------------------------------------------------ (6) the process's first conversion is a different one
+// The text of a conversion is a function of its directive and argument, not of what the engine was asked
+// before: each case runs in a fresh worker (no conversion has happened in the process), performs one
+// PRECEDING conversion (hexadecimal %a/%A, a huge %f, a tiny %e, an integer) and then the checked
+// %f/%e/%g conversions with the full oracle.  State cached from the first call (a static power of the
+// base, a lazily built table) shows as a wrong second result.
+static void first_conversion_body()
+{
+    static const double D[] = {0.0, 1.0, -0.75, 9.9995, 123456.789, 1e-7, 6.02214076e23, -1e100, 1e300, 2.2250738585072014e-308, 4.9e-324, 255.0};
+    static const char *FIRST[] = {"%a", "%A", "%.3a", "%f", "%e", "%g", "%d"};
+    const int ND = sizeof D / sizeof D[0], NF = sizeof FIRST / sizeof FIRST[0];
+    int unit = mc::choose(ND * NF);
+    mc::request_restart(); // the next case gets a worker in which the engine has not run yet
+    int fi = unit % NF;
+    double x = D[unit / NF];
+    mc::describe("first conversion of the process: %s; then f F e E g G (default precision and .17) of %.17g", FIRST[fi], x);
+    {
+        Args a;
+        if (fi == 6)
+            a.push_back(Arg::mkI(42));
+        else
+            a.push_back(Arg::mkD(fi == 3 ? 1e300 : fi == 4 ? 1e-300 : fi == 5 ? 0.5 : 1234.5678));
+        mc::crash_context("C13.first_conversion.crash");
+        Out o = run_impl(FIRST[fi], a);
+        if (o.ret < 0 || (size_t)o.ret != o.emitted)
+            mc::violation("C13.first_conversion.count", "%s: returned %d, emitted %zu", FIRST[fi], o.ret, o.emitted);
+    }
+    for (int ci = 0; ci < 6; ci++)
+        for (int pk = 0; pk < 2; pk++)
+        {
+            Spec d;
+            d.conv = CONV[ci];
+            if (pk)
+            {
+                d.pkind = 2;
+                d.p = 17;
+            }
+            Verdict vd;
+            check_call(d, x, vd);
+            mc::outcome(vd.shape);
+        }
+    mc::more_cases(11, 11);
+    mc::nontrivial();
+}
+
 MC_INIT
 {
+    mc::add_check("first_conversion", first_conversion_body);
     mc::add_check("reentrant_callback", reentrant_callback_body);
     mc::add_check("wide_fields", wide_fields_body);
     mc::add_check("long_precisions", long_precisions_body);
